@@ -11,7 +11,8 @@ def showKVs (m : List (Bytes × Bytes)) : String :=
 def showReq (r : Req) : String :=
   "m=" ++ methodStr r.method ++ " path=" ++ hexOfBytes r.url.path ++ " params=" ++ showKVs r.url.params ++
   " query=" ++ showKVs r.url.query ++ " frag=" ++ hexOfBytes r.url.frag ++ " ver=" ++ verStr r.ver ++
-  " hdr=" ++ showKVs r.headers ++ " body=" ++ hexOfBytes r.body ++ " str=" ++ hexOfBytes r.render
+  " hdr=" ++ showKVs r.headers ++ " body=" ++ hexOfBytes r.body ++ " str=" ++ hexOfBytes r.render ++
+  " rt=" ++ (if parseUrlPath (urlPathToString r.url) == some r.url then "1" else "0")
 
 def showSt : St → String
   | .init => "init" | .startLine => "startline" | .heads => "heads" | .all => "all" | .fail => "fail"
@@ -79,23 +80,51 @@ def doDone (tag : String) (s : Server) (i : Nat) (r : Respond) : Option (Server 
   match s.done i r with
   | none => none
   | some s' =>
-    let s'' := if s.halfSpec && s'.outstanding.isEmpty && s'.pipe.valid then { s' with pipe := s'.pipe.disconnect } else s'
+    let s'' := if s.halfSpec && s'.outstanding.isEmpty && s'.pipe.valid then s'.emit [.drop] else s'
     some (s'', ["B " ++ tag ++ " " ++ " ".intercalate (pipeTags s.pipe s''.pipe ++ (if s.pipe.wbroken then ["after-write-error"] else []))]
                ++ showOut s.pipe s''.pipe)
 
-def reqLines (startIdx : Nat) (evs : List Ev) : List String :=
-  let rs := reqsOf evs
-  (rs.zipIdx).map fun ((r, _, _), k) => "P req " ++ toString (startIdx + k) ++ " " ++ showReq r
+def deliveredLines (ds : List Delivered) : List String :=
+  ds.flatMap fun d => ("P req " ++ toString d.idx ++ " " ++ showReq d.req) ::
+    d.calls.map fun l => "P call " ++ toString d.idx ++ " " ++ toString l
+
+def scriptTags (s : Server) (ds : List Delivered) : List String :=
+  ds.flatMap fun d =>
+    let sc := (s.scripts.lookup d.idx).getD defaultScript
+    let acts := sc.flatten
+    (if d.calls.length > 1 then ["h-next"] else []) ++
+    (if (d.calls.filter (· == 1)).length > 1 || (d.calls.filter (· == 2)).length > 1 then ["h-next-twice"] else []) ++
+    (if acts.contains .throw then ["h-throw"] else []) ++ (if acts.contains .stop then ["h-stop"] else []) ++
+    (if acts.contains .cleanup then ["h-cleanup"] else []) ++
+    (if acts.contains .keep && acts.any (fun a => match a with | .body _ => true | _ => false) then ["h-keep-and-body"] else [])
 
 def doSeg (s : Server) (seg : Bytes) : Server × List String :=
-  let (s', o) := s.seg cfg seg
-  let st := match o.status with | .threw => ["P exception"] | .hang => ["P hang"] | .ok => []
-  (s', ["B " ++ " ".intercalate (evTags o.evs ++ pipeTags s.pipe s'.pipe ++
+  let (s', ds, st) := s.seg cfg seg
+  let stl := match st with | .threw => ["P exception"] | .hang => ["P hang"] | .ok => []
+  (s', ["B " ++ " ".intercalate (ds.map (fun _ => "req-srv") ++ scriptTags s ds ++ pipeTags s.pipe s'.pipe ++
           (if s.conn.closed && s.pipe.valid then ["seg-after-close"] else []))] ++
-       reqLines s.pipe.reqIndex o.evs ++ st ++ showOut s.pipe s'.pipe)
+       deliveredLines ds ++ stl ++
+       -- after an exception the loop is not run again: a pending close of the socket is not seen by the client
+       (showOut s.pipe s'.pipe).filter (fun l => !(st == .threw && l == "P eof")))
+
+def parseAct (w : String) : Option HAct :=
+  if w == "n" then some .next else if w == "k" then some .keep else if w == "t" then some .throw
+  else if w == "s" then some .stop else if w == "c" then some .cleanup
+  else if w.startsWith "b" then (bytesOfHex (w.drop 1).toString).map HAct.body
+  else none
+
+def parseScript (spec : String) : Option HScript :=
+  let levels := spec.splitOn "/"
+  if levels.length > nLevels then none else
+  levels.mapM fun lv => if lv == "-" then some [] else (lv.splitOn ".").mapM parseAct
+
+def poisonOps : List String :=
+  ["seg", "done", "doneN", "doneR", "rel", "cclose", "dclose", "dcloseN", "cdone", "chalf", "chalfS", "wfail"]
 
 def stepLine (m : Mode) (line : String) : Mode × List String :=
   let ws := words line
+  let poisoned := match m with | .server s => s.poisoned | _ => false
+  if poisoned && (match ws with | w :: _ => poisonOps.contains w | [] => false) then (m, ["P poisoned"]) else
   match ws with
   | [] => (m, [])
   | "case" :: _ => (.fresh, [line.trimAscii.toString])
@@ -119,8 +148,14 @@ def stepLine (m : Mode) (line : String) : Mode × List String :=
   | ["sync", i, h] =>
     match i.toNat?, bytesOfHex h, m with
     | some i, some b, .server s =>
-      if (s.syncs.lookup i).isSome then (m, ["bad-op"])
-      else (.server { s with syncs := (i, { status := 200, body := b }) :: s.syncs }, ["P sync"])
+      if (s.scripts.lookup i).isSome then (m, ["bad-op"])
+      else (.server { s with scripts := (i, [[.body b]]) :: s.scripts }, ["P sync"])
+    | _, _, _ => (m, ["bad-op"])
+  | ["script", i, spec] =>
+    match i.toNat?, parseScript spec, m with
+    | some i, some sc, .server s =>
+      if (s.scripts.lookup i).isSome then (m, ["bad-op"])
+      else (.server { s with scripts := (i, sc) :: s.scripts }, ["P script"])
     | _, _, _ => (m, ["bad-op"])
   | ["seg", h] =>
     match bytesOfHex h, m with
@@ -203,7 +238,7 @@ def stepLine (m : Mode) (line : String) : Mode × List String :=
     | .server s =>
       if s.cclosed then (m, ["bad-op"]) else
       let s1 : Server := { s with halfSpec := true, conn := { s.conn with dead := true, buf := [] } }
-      let s2 := if s1.outstanding.isEmpty && s1.pipe.valid then { s1 with pipe := s1.pipe.disconnect } else s1
+      let s2 := if s1.outstanding.isEmpty && s1.pipe.valid then s1.emit [.drop] else s1
       (.server s2, ["B chalfS"] ++ showOut s.pipe s2.pipe)
     | _ => (m, ["bad-op"])
   | ["wfail"] =>
